@@ -1,8 +1,17 @@
-import XehModel.Driver.Codec
+import XehModel.Driver.C01
 
 namespace Xeh.Driver.C03
 
-/-- stub: not modelled yet -/
-def handle (_args : List String) : String := "unsupported"
+/-- replace the digits after ` tok=` by `*` (C03 does not compare error locations) -/
+def starTok (s : String) : String :=
+  match s.splitOn " tok=" with
+  | [a, b] => a ++ " tok=*" ++ String.ofList (b.toList.dropWhile Char.isDigit)
+  | _ => s
+
+/-- `C03 eval …` : a source evaluated on one copy's machine (same request format as `C01 eval`) -/
+def handle (args : List String) : String :=
+  match args with
+  | "eval" :: rest => starTok (C01.handle ("eval" :: rest))
+  | _ => "bad-op"
 
 end Xeh.Driver.C03
